@@ -316,7 +316,8 @@ func runC07(c *Ctx) {
 	}
 	websocketReadLimit(c, "C07-D6")
 
-	c.Rule("C07-D5", "polling hand-over: Discard releases the pending poll with a NOOP packet; the client's poll loop delivers a successfully received poll result unconditionally (also when Discard happened meanwhile); QueuedPackets hands over what is still queued", 5)
+	c.Rule("C07-D5", "polling hand-over: Discard releases the pending poll with a NOOP packet; the client's poll loop delivers a successfully received poll result unconditionally (also when Discard happened meanwhile); QueuedPackets hands over what is still queued — all of it: get() leaves nothing in the queue of the transport that is being discarded", 5)
+	queueGetResets(c, "C07-D5")
 	{
 		fn := p.Fn("polling", "ServerTransport.Discard")
 		body := onceBodyOf(fn, "t.once")
@@ -546,6 +547,31 @@ func calleesWithin(p *Program, fn *ssa.Function, short string, depth int) []*ssa
 	}
 	walk(fn, depth)
 	return out
+}
+
+// queueOnlyTailAppendOrEmptied (C02-D7): FIFO by construction — the queue field of both packet
+// queues is written only by add (the parameter itself or an append at the tail) and set to nil
+// by get/reset/close.  Any other writer (a take-what-fits helper, a filter, a re-queue) can
+// take packets out of the middle: later packets overtake earlier ones, and the attachment frames
+// of a binary packet are separated from their header.
+func queueOnlyTailAppendOrEmptied(c *Ctx, rule string) {
+	p := c.P
+	for _, a := range []struct{ short, typ string }{{"sio", "packetQueue"}, {"polling", "pollQueue"}} {
+		fv := p.Field(a.short, a.typ, "packets")
+		n := 0
+		for _, fn := range p.SrcFuncs() {
+			for _, st := range findInstrs(fn, fieldStorePred(fv)) {
+				n++
+				top := FuncName(EnclosingTop(fn))
+				k, isK := st.(*ssa.Store).Val.(*ssa.Const)
+				isNil := isK && k.Value == nil
+				isAdd := strings.HasSuffix(top, "."+a.typ+").add")
+				c.Ob(rule, a.short+"."+a.typ+".packets/writer@"+top, st.Pos(), isNil || isAdd,
+					"the queue is rewritten with "+Term(st.(*ssa.Store).Val)+" outside add: only add may put packets in (at the tail) and get/reset/close empty it whole — a writer that keeps or re-inserts a part of the queue lets later packets overtake earlier ones and splits a binary packet's frames")
+			}
+		}
+		c.Ob(rule, a.short+"."+a.typ+".packets/writers-found", token.NoPos, n >= 3, "fewer writers of the queue field found than confirmed by hand (add ×2, get)")
+	}
 }
 
 // queueGetResets (C02-D7, C19-D8): get() hands the queued slice out and forgets
